@@ -926,6 +926,9 @@ fn witnesses() -> Vec<Plan> {
         TamperRow { kind: "at-blocked", nskind: "nd-all", mode: "pull-present", refs_at: true },
         TamperRow { kind: "at-dup-rev", nskind: "nd-all", mode: "pull-present", refs_at: true },
         TamperRow { kind: "radid-diverged", nskind: "delegate", mode: "pull-present", refs_at: false },
+        TamperRow { kind: "forked", nskind: "nd-all", mode: "pull-present", refs_at: false },
+        TamperRow { kind: "forked", nskind: "nd-followed", mode: "pull-present", refs_at: true },
+        TamperRow { kind: "rewound", nskind: "nd-all", mode: "pull-present", refs_at: true },
     ];
     rows.iter().enumerate().map(|(i, row)| gen_tamper(&mut Rng::new(7000 + i as u64), row)).collect()
 }
@@ -1219,6 +1222,15 @@ fn main() {
             let row = rows[Rng::for_case(seed, 20, i).below(rows.len() as u64) as usize];
             let mut r = Rng::for_case(seed, 2, i);
             work.push((format!("tamper:{i}"), gen_tamper(&mut r, row)));
+            // and one row of the kind in which the namespace is already present locally (a
+            // pull over an existing rad/sigrefs: the ancestry checks only run there) — a
+            // seeded change in the non-delegate Diverged arm was missed by the single draw
+            let present: Vec<&&TamperRow> = rows.iter().filter(|t| t.mode == "pull-present").collect();
+            if !present.is_empty() {
+                let row = present[Rng::for_case(seed, 23, i).below(present.len() as u64) as usize];
+                let mut r = Rng::for_case(seed, 24, i);
+                work.push((format!("tamper-present:{i}"), gen_tamper(&mut r, row)));
+            }
         }
         // and a few rows with the namespace out of scope (it must stay untouched)
         let out: Vec<&TamperRow> = tampers.iter().filter(|t| t.nskind == "nd-unfollowed").collect();
